@@ -161,6 +161,19 @@ CHECKS["C12"]["text"] += " Replies of 1.2-20 KiB (long Interface-ID / client ide
 CHECKS["C15"]["text"] += " Irrelevant-field closure: one representative per cascade rule x every other option code (three payload shapes) and hops/secs values."
 CHECKS["C17"]["text"] += " Accepted vectors include lists longer than 255 octets (searchdomains, dns, router, staticroute): the value must arrive complete (RFC 3396 splitting is accepted)."
 CHECKS["C19"]["text"] += " The request battery varies vendor class (6 values) and option 93 (absent, empty, odd length, one or two architectures) independently."
+# ---- additions of seed round 8
+CHECKS["C01"]["text"] += " Environment deviation: all seeds are handled once more with every send failing (hook VerifIO.SendErr: ENETUNREACH on the UDP socket; VerifSetFrameFault: EPERM at the raw socket)."
+CHECKS["C02"]["text"] += " Upgrade histories: the plugin is started on a database the harness wrote with the released schema (empty, or with one background lease), then requests and restarts."
+CHECKS["C03"]["text"] += " The upgrade histories of C02 run with the crash-image oracle."
+CHECKS["C07"]["text"] += " Long histories: after 5000 (thorough 70 000) un-hinted allocations, 16 blocks spread over the allocated part are freed and named by the next hint."
+CHECKS["C08"]["text"] += " Six non-canonical spellings of the configured pool (host bits set, upper case, uncompressed) are filled by two clients under all oracles."
+CHECKS["C10"]["text"] += " One binding run installs the update by renaming a temporary file over the lease file."
+CHECKS["C11"]["text"] += " Part B3: the request product under three environment faults (every send fails; raw socket refused with EPERM / EACCES): whatever is handed to the socket still has to match its request."
+CHECKS["C13"]["text"] += " A seventh behaviour 'slow' (modify after an hour of virtual processing time, through the scheduler's clock) is part of the chain alphabet."
+CHECKS["C14"]["text"] += " The DHCPv4 table also varies giaddr and option 82 (circuit-id, RFC 5107 server-identifier-override naming another / the own address / malformed, RFC 3527 link selection)."
+CHECKS["C15"]["text"] += " The shaping plugin also sets or clears the REPLY's broadcast bit: the cascade follows the client's flag."
+CHECKS["C18"]["text"] += " Representative documents are also stored under 11 other file names (.yaml, .conf, .cfg, .yml.new, no extension, .json, .toml, .ini, upper case, with a blank, hidden)."
+CHECKS["C20"]["text"] += " Purity: every ordered pair of base patterns goes through one reused argument buffer in three call orders and is judged against math/big (results must not depend on call history). Thorough: 5 700 base patterns (single-bit, 2^k-1, two-bit) x distances 2^k-1, 2^k, 2^k+1 (2 x 10^8 evaluations)."
 ALL = ["C%02d" % i for i in range(1, 21)]
 NA_REASON = "check not built yet in this session (planned, see DESIGN.md section 5); will be claimed once its machinery exists"
 m = {
